@@ -637,3 +637,106 @@ pub fn relocate(mut prog: PpProgram, prefix: &str, tag: &str) -> PpProgram {
     prog.top = mv("/w/top.sv");
     prog
 }
+
+
+/// an accepted module whose single expression nests `depth` parentheses
+pub fn deep_parens(rng: &mut Rng, depth: usize) -> String {
+    let mut e = ident(rng);
+    for i in 0..depth {
+        e = match i % 3 {
+            0 => format!("({})", e),
+            1 => format!("({} + 1)", e),
+            _ => format!("(~{})", e),
+        };
+    }
+    format!("module deep;\n  assign y = {};\nendmodule\n", e)
+}
+
+/// k nested / sequential occurrences of a stateful construct (bounded resources show at a specific count)
+pub fn repeated_construct(rng: &mut Rng) -> String {
+    let k = 2 + rng.usize_below(70);
+    let v = *rng.pick(VERSIONS);
+    match rng.below(8) {
+        0 => format!("{}module m; endmodule\n", format!("`begin_keywords \"{}\"\n", v).repeat(k)),
+        1 => format!("{}module m; endmodule\n{}", format!("`begin_keywords \"{}\"\n", v).repeat(k), "`end_keywords\n".repeat(k)),
+        2 => format!("{}module m; endmodule\n", format!("`begin_keywords \"{}\"\n`end_keywords\n", v).repeat(k)),
+        3 => format!("{}wire w;\n{}", "`ifdef A\n`else\n".repeat(k.min(40)), "`endif\n".repeat(k.min(40))),
+        4 => format!("module m;\n{}endmodule\n", "  `timescale 1ns/1ps\n  wire a;\n".repeat(k)),
+        5 => {
+            let mut s = String::new();
+            for i in 0..k {
+                s.push_str(&format!("`define R{} `R{}\n", i, i + 1));
+            }
+            s.push_str(&format!("`define R{} leaf\nwire `R0;\n", k));
+            s
+        }
+        6 => format!("{}module m; endmodule\n", "`resetall\n".repeat(k)),
+        _ => format!("module m; initial begin {} end endmodule\n", "begin ".repeat(k.min(30)) + &"end ".repeat(k.min(30))),
+    }
+}
+
+
+/// insert trivia that carries parser state (keyword regions, kept directives, comments) at token
+/// boundaries of a source: any whitespace position is a legal place for it
+pub fn inject_directives(rng: &mut Rng, text: &str) -> String {
+    // candidate positions: the start of each whitespace run outside strings / comments (cheap approximation:
+    // skip lines that contain a quote, a backtick or a comment opener)
+    let mut pos: Vec<usize> = vec![];
+    let mut off = 0;
+    for line in text.split_inclusive('\n') {
+        if !line.contains('"') && !line.contains('`') && !line.contains("//") && !line.contains("/*") {
+            let b = line.as_bytes();
+            for i in 1..b.len() {
+                if (b[i] == b' ' || b[i] == b'\n') && !(b[i - 1] == b' ' || b[i - 1] == b'\n') {
+                    pos.push(off + i);
+                }
+            }
+        }
+        off += line.len();
+    }
+    if pos.is_empty() {
+        return text.to_string();
+    }
+    let mut ins: Vec<(usize, String)> = vec![];
+    let n = 1 + rng.usize_below(3);
+    for _ in 0..n {
+        let p = *rng.pick(&pos);
+        match rng.below(7) {
+            0 | 1 => {
+                // a balanced region: begin at p, end at a later position
+                let later: Vec<usize> = pos.iter().cloned().filter(|q| *q > p).collect();
+                let v = *rng.pick(VERSIONS);
+                ins.push((p, format!(" `begin_keywords \"{}\" ", v)));
+                if !later.is_empty() && rng.chance(5, 6) {
+                    ins.push((*rng.pick(&later), " `end_keywords ".to_string()));
+                }
+            }
+            2 => ins.push((p, " `end_keywords ".to_string())),
+            3 => ins.push((p, " `timescale 1ns/1ps ".to_string())),
+            4 => ins.push((p, " `default_nettype none ".to_string())),
+            5 => ins.push((p, " /* c */ ".to_string())),
+            _ => ins.push((p, "\n`line 7 \"x.v\" 0\n".to_string())),
+        }
+    }
+    ins.sort_by(|a, b| b.0.cmp(&a.0));
+    let mut out = text.to_string();
+    for (p, t) in ins {
+        out.insert_str(p, &t);
+    }
+    out
+}
+
+pub fn corpus_sv_nth(i: usize, max: usize) -> Option<&'static str> {
+    let c = corpus();
+    let svs: Vec<&Snippet> = c.snippets.iter().filter(|s| s.kind == "sv").collect();
+    let s = svs[i % svs.len()];
+    if s.text.len() <= max {
+        Some(&s.text)
+    } else {
+        None
+    }
+}
+
+pub fn corpus_sv_count() -> usize {
+    corpus().snippets.iter().filter(|s| s.kind == "sv").count()
+}
